@@ -225,6 +225,12 @@ class Manager(ServerBase):
             # If server has crashed then just exit
             pass
 
+    def handle_disconnect(self, conn: Connection) -> None:
+        """Shutdown if the boss (or, as for every node, an employee) is lost."""
+        super().handle_disconnect(conn)
+        if conn == self.upstream and self.running:
+            self.handle_shutdown()
+
     def get_to_string(self, conn: Connection) -> str:
         """Return a string representation of the connection."""
         if conn == self.upstream:
